@@ -81,6 +81,7 @@ inductive Cmd
   | op (o : Op)
   | search (mk : List Nat → Op) (digest : Nat)   -- choice list to be found: the one reproducing the recorded outcome
   | template
+  | pinned                   -- `S`: the next two ops form one observation (pinned schedule on the Go side)
   | restart (pol : Policy)   -- `N:<policy>`: a new session, fresh pool with another policy on the same chain
   | skip            -- `Z:k:m`: the Go side runs the next k disconnects and m connects as one reorganisation
 
@@ -111,6 +112,7 @@ def parseOp? (defs : List TxAbs) (s : String) : Option Cmd :=
     withPrio prio (.connect ⟨cbTx (← cb.toNat?) (← cbOuts.toNat?), txs, ← relTime? mtp⟩)
   | ["U"] => some (.op .disconnect)
   | ["T"] => some .template
+  | ["S"] => some .pinned
   | ["N", pol] => (parsePolicy? pol).map .restart
   | ["Z", _, _] => some .skip
   | _ => none
@@ -196,6 +198,12 @@ def opPrio : Op → List Nat
 def runCmds (pol : Policy) : State → List Cmd → List String
   | _, [] => []
   | st, .skip :: rest => "z" :: runCmds pol st rest
+  | st, .pinned :: .op o1 :: .op o2 :: rest =>
+    -- the only admissible outcome of the pinned schedule: the submission, then the competing call
+    let r1 := step pol st o1
+    let r2 := step pol r1.1 o2
+    (showRes o1 r1.2 ++ ";" ++ showPool r2.1.pool) :: runCmds pol r2.1 rest
+  | _, .pinned :: _ => ["bad-op"]
   | st, .restart pol' :: rest =>
     ("-;" ++ showPool Pool.empty) :: runCmds pol' { st with pool := Pool.empty } rest
   | st, .template :: rest =>
